@@ -1,8 +1,6 @@
 package validator
 
 import (
-	"fmt"
-
 	"github.com/ccbrown/api-fu/graphql/ast"
 	"github.com/ccbrown/api-fu/graphql/schema"
 )
@@ -95,7 +93,9 @@ func validateCoercion(from ast.Value, to schema.Type, allowItemToListCoercion bo
 	case *schema.NonNullType:
 		return validateCoercion(from, to.Type, allowItemToListCoercion)
 	default:
-		panic(fmt.Sprintf("unsupported input coercion type: %T", to))
+		// not an input type: only possible for the default value of a variable whose declared type
+		// is not an input type, which is reported by the variable validation rules
+		ret = append(ret, newSecondaryError(from, "cannot coerce to non-input type %v", to))
 	}
 	return ret
 }
